@@ -150,7 +150,7 @@ REGISTRY = {
     },
     "C10": {
         "rules": [
-            dmrg.rule_lockstep, dmrg.rule_mirror_blocks,
+            dmrg.rule_lockstep, dmrg.rule_mirror_blocks, registries.rule_dense_linop_agree,
             P(optflow.rule_option_delivery, opts=("bra",), modules=("quimb.tensor.tn1d.core", "quimb.tensor.tensor_core", "quimb.tensor.tn2d.core"),
               rule="bra-forwarding", floor=10,
               description="every function with a `bra` parameter forwards bra=bra to each callee that accepts `bra` (a dropped bra "
@@ -167,7 +167,7 @@ REGISTRY = {
     },
     "C09": {
         "rules": [
-            registries.rule_compress_registry_1d,
+            registries.rule_compress_registry_1d, registries.rule_full_span,
             P(optflow.rule_option_delivery, opts=("max_bond", "cutoff"), modules=("quimb.tensor.tn1d",), rule="cap-delivery[1d]", floor=40),
             P(registries.rule_mode_total, specs=[
                 ("quimb.tensor.tn1d.core", "TensorNetwork1DFlat.compress", "form"),
@@ -187,7 +187,7 @@ REGISTRY = {
     },
     "C12": {
         "rules": [
-            registries.rule_ag_compress_registry,
+            registries.rule_ag_compress_registry, exponent.rule_view_accrual,
             P(optflow.rule_option_delivery, opts=("max_bond", "cutoff"),
               modules=("quimb.tensor.tn2d", "quimb.tensor.tn3d", "quimb.tensor.tnag.compress", "quimb.tensor.tensor_core"),
               rule="cap-delivery[boundary]", floor=80),
@@ -207,7 +207,7 @@ REGISTRY = {
         "assumptions": COMMON_ASSUMPTIONS,
     },
     "C04": {
-        "rules": [iso.rule_iso_invalidate, iso.rule_iso_claim, iso.rule_exp_compensate, iso.rule_strip_member,
+        "rules": [iso.rule_iso_invalidate, iso.rule_iso_claim, iso.rule_exp_compensate, iso.rule_strip_member, exponent.rule_view_accrual,
                   functools.partial(inplace.rule_inplace_effect, family=iso.rewrite_family, rule="inplace-effect[rewrites]", floor=40, controls=0)],
         "explanation": (
             "static: decides (a) the isometry flag left_inds as a typestate — dropped by every data write, low-level "
@@ -232,7 +232,8 @@ REGISTRY = {
         "assumptions": COMMON_ASSUMPTIONS,
     },
     "C11": {
-        "rules": [tebd.rule_id_cache, tebd.rule_trotter_coeffs, tebd.rule_time_bookkeeping, tebd.rule_term_sharing],
+        "rules": [tebd.rule_id_cache, tebd.rule_trotter_coeffs, tebd.rule_time_bookkeeping, tebd.rule_term_sharing,
+                  tebd.rule_memo_key_complete, tebd.rule_default_orientation],
         "explanation": (
             "static (cache-key/lifetime rule, constant folding, statement-order rules): decides that id()-keyed "
             "operator caches stay coherent with the terms they key, that the product-formula coefficients satisfy "
